@@ -219,8 +219,8 @@ def rule_role(ctx, R):
     ctx.check(R, bool(ol) and norm(ol[0].value) == "macLength * 2 + keyLength * 2 + ivLength * 2", fi.qname,
               "key block length = 2*(mac+key+iv)", "wrong key block length", fi.loc())
     kb = [n for n in fi.node.body if isinstance(n, ast.Assign) and norm(n.targets[0]) == "keyBlock"]
-    ok = bool(kb) and "b'key expansion'" in norm(kb[0].value) and "client_random=clientRandom" in norm(kb[0].value) \
-        and "server_random=serverRandom" in norm(kb[0].value)
+    ok = bool(kb) and "b'key expansion'" in norm(kb[0].value) and ("client_random=clientRandom" in norm(kb[0].value) or "clientRandom" in norm(kb[0].value)) \
+        and ("server_random=serverRandom" in norm(kb[0].value) or "serverRandom" in norm(kb[0].value))
     ctx.check(R, ok, fi.qname, "key block from master secret with label and both randoms",
               "key expansion must use the 'key expansion' label with client and server randoms", fi.loc())
     # TLS 1.3
